@@ -268,7 +268,7 @@ func vfApplyResolve(m *vfModel, t, start time.Duration, pass bool) {
 
 // vfPin reads the real CPU usage that enters overloadFactor; call before and after an
 // Allow: the factor is pinned when both readings give the same factor and less than one
-// refresh interval (250 ms) of wall time passed in between (so that at most one refresh
+// refresh interval (less than 50 ms of the 250 ms) of wall time passed in between (so that at most one refresh
 // happened and the value read inside is one of the two).
 type vfPinner struct {
 	v0 int64
@@ -280,7 +280,7 @@ func vfPinStart() vfPinner { return vfPinner{v0: stat.CpuUsage(), w0: time.Now()
 func vfPinEnd(pn vfPinner, th int64, p *vfPre) {
 	v1 := stat.CpuUsage()
 	f0, f1 := vfFactor(th, pn.v0), vfFactor(th, v1)
-	if f0 == f1 && time.Since(pn.w0) < 200*time.Millisecond {
+	if f0 == f1 && time.Since(pn.w0) < 50*time.Millisecond {
 		p.Pinned, p.Cpu, p.Factor = true, v1, f0
 	}
 }
